@@ -811,11 +811,11 @@ def run(ctx):
             todo.append((kind, cfg, f, tags))
     cases = line1(ctx, objdir, sp, todo)
     res = evaluate(ctx, cases)
-    outside = set(res["in_spec"]) if res else set()
+    inside = set(res["in_spec"]) if res else set()      # bad_indices of (negb spec_class) = members of the class
     for i, c in enumerate(cases):
         size = sum(x.size() for x in c["forest"])
         ctx.case(key=(json.dumps(cfg_json(c["cfg"]), sort_keys=True), json.dumps([x.to_json() for x in c["forest"]])),
-                 nontrivial=hides_something(c), tags=c["tags"] + (["in-spec-class"] if i not in outside else []),
+                 nontrivial=hides_something(c), tags=c["tags"] + (["in-spec-class"] if i in inside else []),
                  size=size, sample=case_json(c) if len(ctx.samples) < 3 and hides_something(c) else None)
     verdict1(ctx, cases, res)
     for (key, what, cfg, f, differs), c in zip(w1, [c for c in cases if c["kind"].startswith("witness:")]):
